@@ -18,6 +18,27 @@ func init() {
 
 const maxExprMsg = "max number of expressions parsed"
 
+// memoFinding returns the recorded Memoize finding the case falls into by an oracle-side
+// predicate: the reference evaluation reaches a labelled expression a second time at an
+// offset where it was evaluated before (the memo hit skips the label binding), or runs a
+// code block a second time at one offset with different label values (the memo table is
+// keyed by expression and offset only, so the block is not re-run). Inside left-recursive
+// rules the expression memo is off and neither applies.
+func memoFinding(x *X, ref *refpeg.Result, strict bool) string {
+	if strict {
+		return ""
+	}
+	if ref.Stats.LabelReeval > 0 && x.KF["KF-C06-MEMOLABEL"] {
+		return "KF-C06-MEMOLABEL"
+	}
+	if ref.Stats.CodeReevalDiff > 0 && x.KF["KF-C06-MEMOCODE"] {
+		return "KF-C06-MEMOCODE"
+	}
+	return ""
+}
+
+func memoUnsound(x *X, ref *refpeg.Result, strict bool) bool { return memoFinding(x, ref, strict) != "" }
+
 // ---------------------------------------------------------------------------------
 // C06: Memoize / Debug / Statistics never change results; Memoize bounds the work
 
@@ -59,8 +80,10 @@ func checkC06(x *X, c *Case, strict bool) *Outcome {
 	if ex := knownExclusion(x, ref, strict); ex != "" {
 		return &Outcome{Excluded: ex}
 	}
-	if c.Opts.Memoize && ref.Stats.LabelReeval > 0 && !strict && x.KF["KF-C06-MEMOLABEL"] {
-		return &Outcome{Excluded: "KF-C06-MEMOLABEL"}
+	if c.Opts.Memoize {
+		if ex := memoFinding(x, ref, strict); ex != "" {
+			return &Outcome{Excluded: ex}
+		}
 	}
 	o := &Outcome{Tags: commonTags(c, ref)}
 	for _, n := range []struct {
@@ -238,8 +261,8 @@ func checkC16(x *X, c *Case, strict bool) *Outcome {
 			o.Excluded = "KF-C16-MEMOZERO"
 			return o
 		}
-		if memo && refU.Stats.LabelReeval > 0 && !strict && x.KF["KF-C06-MEMOLABEL"] {
-			o.Excluded = "KF-C06-MEMOLABEL"
+		if ex := memoFinding(x, refU, strict); memo && ex != "" {
+			o.Excluded = ex
 			return o
 		}
 		var n uint64 // expressions the unbounded parse needs under these options
